@@ -215,9 +215,9 @@ class LazyMonitor:
         return lk if isinstance(lk, sched.ILock) else None
 
     def observe(self, s, t):
-        pcs = []
         lk = self.lock()
-        owner = None
+        fresh = None          # the moving thread entered a new access during this step
+        frames = {}
         for w in s.workers:
             a = self.acc[w.idx]
             f = find_frame(w, self.code, self.obj) if w.state != 'done' else None
@@ -225,28 +225,44 @@ class LazyMonitor:
                 a['count'] += 1
                 if a['count'] > self.A:
                     raise Broken(f'thread {w.idx} made more than {self.A} accesses (harness bound)')
+                if a['count'] > 1 and w.idx == t:
+                    fresh = w.idx
             a['frame'] = f
-            for k in range(self.A):
-                if k < a['count'] - 1:
-                    pcs.append('d')
-                elif k == a['count'] - 1:
-                    if f is None:
-                        pcs.append('d')
-                    else:
-                        tag = self.lines.get(f.f_lineno, 'm')
-                        if tag == 'w':
-                            tag = 'r' if (lk is not None and lk.owner == w.idx) else 'a'
-                        pcs.append(tag)
-                else:
-                    pcs.append('i')
-            if lk is not None and lk.owner == w.idx:
-                owner = w.idx * self.A + max(a['count'] - 1, 0)
+            frames[w.idx] = f
         v = 1 if getattr(self.obj, self.value_attr) is not None else 0
         i = 1 if (self.input_attr is None or getattr(self.obj, self.input_attr) is not None) else 0
-        mt = 0
-        if t is not None:
-            mt = t * self.A + max(self.acc[t]['count'] - 1, 0)
-        self.events.append(f"{mt}:{'_' if owner is None else owner}:{v}:{i}:{''.join(pcs)}")
+
+        def snapshot(between):
+            """`between`: the state after the moving thread's previous access returned and before its
+            next access (made without a yield point in between) entered the getter"""
+            pcs, owner = [], None
+            for w in s.workers:
+                a = self.acc[w.idx]
+                cnt = a['count'] - (1 if (between and w.idx == fresh) else 0)
+                f = None if (between and w.idx == fresh) else frames[w.idx]
+                for k in range(self.A):
+                    if k < cnt - 1:
+                        pcs.append('d')
+                    elif k == cnt - 1:
+                        if f is None:
+                            pcs.append('d')
+                        else:
+                            tag = self.lines.get(f.f_lineno, 'm')
+                            if tag == 'w':
+                                tag = 'r' if (lk is not None and lk.owner == w.idx) else 'a'
+                            pcs.append(tag)
+                    else:
+                        pcs.append('i')
+                if lk is not None and lk.owner == w.idx and not (between and w.idx == fresh):
+                    owner = w.idx * self.A + max(cnt - 1, 0)
+            mt = 0
+            if t is not None:
+                cnt = self.acc[t]['count'] - (1 if (between and t == fresh) else 0)
+                mt = t * self.A + max(cnt - 1, 0)
+            return f"{mt}:{'_' if owner is None else owner}:{v}:{i}:{''.join(pcs)}"
+        if fresh is not None:
+            self.events.append(snapshot(True))
+        self.events.append(snapshot(False))
 
     def request(self):
         return f"lazy 1 {1 if self.clears else 0} {self.n * self.A} {FUEL} {';'.join(self.events)}"
